@@ -5,6 +5,7 @@ package main
 // tested by deleting that metric's series from the database.
 
 import (
+	"regexp"
 	"encoding/json"
 	"fmt"
 	"math/rand"
@@ -18,6 +19,7 @@ import (
 
 	"github.com/cloudflare/pint/internal/parser/utils"
 	"github.com/cloudflare/pint/verifharness/hx"
+	"github.com/cloudflare/pint/verifharness/pipe"
 	"github.com/cloudflare/pint/verifharness/promeval"
 )
 
@@ -571,6 +573,73 @@ func lfReplay(replay string) lfCase {
 	return rp.Input
 }
 
+// ---- C04, the template side: a report names a label the template really reads ----
+
+var c04TmplLabelRe = regexp.MustCompile("Template is using `([^`]+)` label")
+
+type c04TmplCase struct {
+	Expr     string   `json:"expr"`
+	Template string   `json:"template"`
+	Reads    []string `json:"labels_the_template_reads"`
+	File     string   `json:"file"`
+}
+
+func c04Template(r *hx.Run) {
+	rr := r.Rng
+	g := &lfGen{rr: rr}
+	expr := g.vec(1 + rr.Intn(2))
+	l := hx.Pick(rr, append(append([]string{}, lfLabels...), "d"))
+	var tmpl string
+	switch rr.Intn(6) {
+	case 0:
+		tmpl = "{{ $labels." + l + " }}"
+	case 1:
+		tmpl = "{{ .Labels." + l + " }}"
+	case 2:
+		tmpl = "{{ $x := $labels }}{{ $x." + l + " }}"
+	case 3:
+		// a value built from a label by a function is not the label set (fix d7e87d0)
+		tmpl = "{{ $a := args $labels." + l + " $value }}{{ $a.arg0 }} is {{ $a.arg1 }}"
+	case 4:
+		tmpl = `{{ $v := printf "%s" $labels.` + l + ` }}{{ $v }}`
+	default:
+		tmpl = "{{ $x := $labels }}{{ $y := $x }}{{ $y." + l + " }}"
+	}
+	file := "groups:\n- name: g\n  rules:\n  - alert: A\n    expr: |\n      " + expr + "\n    annotations:\n      summary: '" + tmpl + "'\n"
+	cs := c04TmplCase{Expr: expr, Template: tmpl, Reads: []string{l}, File: file}
+	cfg, err := pipe.LoadConfig(r.OutDir, "")
+	if err != nil {
+		panic(err)
+	}
+	o := pipe.Options{Strict: true, Offline: true}
+	pipe.ApplyFlags(&cfg, o)
+	res := pipe.Lint(cfg, "r.yml", []byte(file), o)
+	if res.Panic != "" {
+		r.Violate(hx.Violation{Class: "template-check-panics", Input: cs, Observed: tail(res.Panic, 1500)})
+		return
+	}
+	named := 0
+	for _, rep := range res.Reports {
+		if rep.Problem.Reporter != "alerts/template" || rep.Problem.Summary != "template uses non-existent label" {
+			continue
+		}
+		for _, d := range rep.Problem.Diagnostics {
+			m := c04TmplLabelRe.FindStringSubmatch(d.Message)
+			if m == nil {
+				continue
+			}
+			named++
+			if m[1] != l {
+				r.Violate(hx.Violation{Class: "template-report-names-a-label-the-template-does-not-read", Input: cs,
+					Observed: map[string]any{"label": m[1], "message": d.Message}, Expected: "only " + l + " can be reported: it is the only label the template reads"})
+				return
+			}
+		}
+	}
+	r.Count(fmt.Sprintf("template-reports:%d", min(named, 2)))
+	r.Case("tmpl\x00"+file, named > 0)
+}
+
 func runC04(r *hx.Run, replay string) {
 	if replay != "" {
 		c04Eval(r, lfReplay(replay))
@@ -581,6 +650,9 @@ func runC04(r *hx.Run, replay string) {
 		expr := g.vec(1 + r.Rng.Intn(3))
 		for k := 0; k < 3; k++ {
 			c04Eval(r, lfCase{Expr: expr, Series: lfDB(r.Rng, g.leaves, k == 0)})
+		}
+		if i%3 == 0 {
+			c04Template(r)
 		}
 	}
 }
